@@ -9,8 +9,10 @@ mod dom_words;
 mod simutil;
 mod dom_vcd;
 mod dom_comp;
+mod dom_cosim;
 mod dom_pipeline;
 mod dom_store;
+mod dom_pretty;
 mod vsets;
 mod dom_fragment;
 mod dom_order;
@@ -26,6 +28,7 @@ fn main() {
     let opts = util::Opts::parse(&args[1..]);
     let rc = match args[0].as_str() {
         "store" => dom_store::main(&opts),
+        "pretty" => dom_pretty::main(&opts),
         "fragment" => dom_fragment::main(&opts),
         "order" => dom_order::main(&opts),
         "tokens" => dom_tokens::main(&opts),
@@ -36,6 +39,7 @@ fn main() {
         "words" => dom_words::main(&opts),
         "vcd" => dom_vcd::main(&opts),
         "comp" => dom_comp::main(&opts),
+        "cosim" => dom_cosim::main(&opts),
         "hash" => {
             // content hashes exactly as the incremental cache computes them
             for f in &opts.rest {
